@@ -107,6 +107,18 @@ def run(run: common.Run):
             sv = make_valid(rng, src.h, src.w, case['mask'])
             if sv.sum() < 12:
                 sv[:] = True
+            if case['model'] == 'gain-offset' and case['i'] % 2 == 1:
+                # a flat (saturated) patch of the source wider than the kernel: the least-squares fit has no solution inside it, the
+                # parameters there are in-painted (default threshold) - offset from the neighbours, gain re-estimated from the window
+                # means - and the relation must still be recovered in place
+                kh, kw = case['kernel']
+                ph_ = min(src.h - 2, -(-(kh + 3) * ref.py // src.py))
+                pw_ = min(src.w - 2, -(-(kw + 3) * ref.px // src.px))
+                if ph_ >= 2 and pw_ >= 2:
+                    r0, c0 = rng.randrange(1, src.h - ph_), rng.randrange(1, src.w - pw_)
+                    s[:, r0:r0 + ph_, c0:c0 + pw_] = rng.randint(30, 190)
+                    sv[r0:r0 + ph_, c0:c0 + pw_] = True
+                    run.hist['gain-offset: source with a flat patch wider than the kernel (in-painted parameters)'] += 1
             req = [resamp.model_resample_line('average', src, ref, s[b], sv) for b in range(nb)]
             base = dict(src=s, sv=sv)
         else:
